@@ -107,6 +107,8 @@ class Inliner:
             if v is None:
                 return [s]
             pre, v2 = self.hoist(v, depth)
+            if isinstance(s, ast.Expr) and isinstance(v2, ast.Name) and v2.id.startswith("__h") and v2.id.endswith("_ret"):
+                return pre         # a helper called for its effects only
             s2 = copy.copy(s)
             setattr(s2, field, v2)
             return pre + [s2]
@@ -317,6 +319,24 @@ def normalize(stmts, value_returns=False):
     """Control-flow normal form the layout interpreters read: `if c: A; return` followed by B becomes `if c: A else: B` (only
     for bare returns, i.e. decoders), and `if not c: A else: B` becomes `if c: B else: A`."""
     out = []
+    stmts = list(stmts)
+    # a = self.b = value  ->  self.b = value; a = self.b   /   x = A if c else B  ->  if c: x = A else: x = B  (attribute targets)
+    flat = []
+    for s in stmts:
+        if isinstance(s, ast.Assign) and len(s.targets) == 2 and isinstance(s.targets[0], ast.Name) and isinstance(s.targets[1], ast.Attribute):
+            s1 = ast.copy_location(ast.Assign(targets=[s.targets[1]], value=s.value, lineno=s.lineno), s)
+            s2 = ast.copy_location(ast.Assign(targets=[s.targets[0]], value=copy.deepcopy(s.targets[1]), lineno=s.lineno), s)
+            for n in ast.walk(s2.value):
+                if hasattr(n, "ctx"):
+                    n.ctx = ast.Load()
+            flat += [s1, s2]
+        elif isinstance(s, ast.Assign) and len(s.targets) == 1 and isinstance(s.targets[0], ast.Attribute) and isinstance(s.value, ast.IfExp):
+            a = ast.copy_location(ast.Assign(targets=[copy.deepcopy(s.targets[0])], value=s.value.body, lineno=s.lineno), s)
+            b = ast.copy_location(ast.Assign(targets=[copy.deepcopy(s.targets[0])], value=s.value.orelse, lineno=s.lineno), s)
+            flat.append(ast.copy_location(ast.If(test=s.value.test, body=[a], orelse=[b]), s))
+        else:
+            flat.append(s)
+    stmts = flat
     for i, s in enumerate(stmts):
         if isinstance(s, ast.If):
             s = copy.copy(s)
